@@ -19,7 +19,7 @@ pub fn meta() -> Meta {
     Meta {
         id: "C06",
         level: "exploration",
-        rule: "forged tables through the real apply_filters+write_fasta and filter(update_kmers)+iter, compared with the row predicate of the statement: (a) every row over the 16 symbols {A,C,G,T,-,R,Y,S,W,K,M,B,D,H,V,N} for 1..3 samples and over {A,C,-,N,R,S} for 4..5 samples (thorough: all 16 symbols for 4 samples, {A,C,G,-,N,R,S,W} for 5) as a one-row table; (b) every ordered pair of 40 representative rows and every ordered triple of 12 (3 samples), both update_kmers settings, so the three parallel vectors must stay aligned under removal; (c) 6..12 samples with 'j copies of x, rest y' rows; each x 4 site filters x ambig-mask x no-gap-only-sites x filter-ambig-as-missing x every threshold 0..n (frequencies (t-1/2)/n); plus a CLI family through `ska align` option parsing. Non-trivial = a (table, setting) pair; distinct outcomes = distinct expected column multisets.".into(),
+        rule: "forged tables through the real apply_filters+write_fasta and filter(update_kmers)+iter, compared with the row predicate of the statement: (a) every row over the 16 symbols {A,C,G,T,-,R,Y,S,W,K,M,B,D,H,V,N} for 1..3 samples and over {A,C,-,N,R,S} for 4..5 samples (thorough: all 16 symbols for 4 samples, {A,C,G,-,N,R,S,W} for 5) as a one-row table; (b) every ordered pair of 40 representative rows and every ordered triple of 12 (3 samples), both update_kmers settings, so the three parallel vectors must stay aligned under removal; (c) 6..12 samples with 'j copies of x, rest y' rows; each x 4 site filters x ambig-mask x no-gap-only-sites x filter-ambig-as-missing x every threshold 0..n (frequencies (t-1/2)/n, and additionally t/n where that product is exact in f64); plus a CLI family through `ska align` option parsing. Non-trivial = a (table, setting) pair; distinct outcomes = distinct expected column multisets.".into(),
         assumptions: vec!["all-gap rows are unreachable (asserted as an invariant by C10) and excluded".into(), "thresholds use frequencies whose ceil is robust in f64 (DESIGN §4 rule 2)".into()],
         exhaustive_when_uncapped: true,
     }
@@ -72,6 +72,17 @@ pub fn check_one(t: &Table, f: &FilterSpec, also_update: bool) -> Result<(), Str
     // route 1: what `ska align` does
     let mut a: MergeSkaArray<u64> = real::forge_array(t);
     let (names, seqs) = real::align_array(&mut a, freq_for_threshold(f.thr, n), f).map_err(|e| format!("align panicked: {e}"))?;
+    // the same threshold given as the exact fraction t/n (where n*(t/n) is exactly t in f64)
+    if f.thr > 0 {
+        let fx = f.thr as f64 / n as f64;
+        if n as f64 * fx == f.thr as f64 {
+            let mut ax: MergeSkaArray<u64> = real::forge_array(t);
+            let (_, seqs_x) = real::align_array(&mut ax, fx, f).map_err(|e| format!("align panicked: {e}"))?;
+            if seqs_x != seqs && real::columns_of(&seqs_x)? != real::columns_of(&seqs)? {
+                return Err(format!("--min-freq {fx} (= {}/{n} exactly) and --min-freq {} select different columns", f.thr, freq_for_threshold(f.thr, n)));
+            }
+        }
+    }
     if names != t.names {
         return Err(format!("names {names:?}"));
     }
